@@ -20,6 +20,8 @@
 #include <omp.h>
 #endif
 
+#define KALIGN_MAX_THREADS 1024
+
 #define ALN_WRAP_IMPORT
 #include "aln_wrap.h"
 #include "kalign_verif.h"
@@ -83,6 +85,17 @@ int kalign_run(struct msa *msa, int n_threads, int type, float gpo, float gpe, f
         RUN(alloc_tasks(&tasks, msa->numseq));
 
 #ifdef HAVE_OPENMP
+        /* The thread count goes straight to the OpenMP runtime, which ends
+           the process when it cannot start a team that large. */
+        if(n_threads < 1){
+                n_threads = 1;
+        }
+        if(n_threads > KALIGN_MAX_THREADS){
+                if(!msa->quiet){
+                        WARNING_MSG("%d threads requested; using %d.", n_threads, KALIGN_MAX_THREADS);
+                }
+                n_threads = KALIGN_MAX_THREADS;
+        }
         omp_set_num_threads(n_threads);
 #endif
         /* Build guide tree */
